@@ -50,7 +50,7 @@ def run(ctx):
                "Fixpoint zl_eq (m o : list Z) : bool := match m, o with [], [] => true | x :: m', y :: o' => (x =? y) && zl_eq m' o' | _, _ => false end.\n"
                "Definition chkl (c : list (list bytes) * list Z) : bool := zl_eq (all_len_lints (fst c)) (snd c).\n")
     fl = common.corr_stream(ctx, "subjlen", d["cases"].get("subjlen", []), lheader, "chkl",
-                            "SubjLen.all_len_lints (thirteen subject-attribute length lints; characters counted as utf8.RuneCountInString does) vs the real lints by direct call", shard=60)
+                            "SubjLen.all_len_lints (thirteen subject-attribute length lints; characters counted as utf8.RuneCountInString does) vs the real lints by direct call", shard=25)
     common.require_outcomes(ctx, "subjlen", d["cases"].get("subjlen", []), [{"1", "3", "6"}] * 4 + [{"1", "3", "5"}] + [{"1", "3", "6"}] * 7 + [{"1", "3", "5"}])
     if not mon:
         common.report_disagreements(ctx, "subjlen", fl, "Kernels.SubjLen (c17_subject_length_lints_perm applies to the model only)", [])
